@@ -217,7 +217,10 @@ bool parseRecord(const QByteArray &packet, quint16 &offset, Record &record)
                 return false;
             }
             if (nBytes == 0) {
-                break;
+                // A zero-length string carries no attribute; keep reading so
+                // that the remaining strings are not lost and the offset
+                // ends up past the record's data
+                continue;
             }
             QByteArray attr(packet.constData() + offset, nBytes);
             offset += nBytes;
